@@ -11,6 +11,8 @@ right access class.
    walk itself against the kernel truth (disagreement = model wrong = inconclusive, never a violation)."""
 import json
 import os
+import threading
+import time
 
 import vlib
 
@@ -18,16 +20,40 @@ KFLAGS_Q = ["O_CREAT", "O_EXCL", "O_TRUNC", "O_APPEND", "O_NOFOLLOW"]
 KFLAGS_T = KFLAGS_Q + ["O_DIRECTORY", "O_CLOEXEC", "O_PATH"]
 
 
-def gen_cfg(ctx, all3, kflags):
+def gen_cfg(ctx, rest, part, parts, kflags):
     return """CONSTANTS Seed = %d
-  All3 = %s
+  Rest = %s
+  A3Part = %d
+  A3Parts = %d
   KFlags = {%s}
-  KKinds = %s
+  KKinds = {1}
   AForests = %s
 INIT Init
 NEXT Next
-""" % (ctx.seed % 1000000, "TRUE" if all3 else "FALSE", ",".join('"%s"' % k for k in kflags),
-       "{1}", ctx.pick("{1}", "{1, 3, 7}"))
+""" % (ctx.seed % 1000000, "TRUE" if rest else "FALSE", part, parts, ",".join('"%s"' % k for k in kflags),
+       ctx.pick("{1}", "{1, 3, 7}"))
+
+
+def parallel(jobs):
+    """run the callables concurrently (each is one single-worker TLC run); results in order"""
+    res, err = [None] * len(jobs), []
+
+    def wrap(k, f):
+        try:
+            res[k] = f()
+        except BaseException as e:      # re-raised in the caller's thread
+            err.append(e)
+    ts = []
+    for k, f in enumerate(jobs):
+        t = threading.Thread(target=wrap, args=(k, f))
+        t.start()
+        ts.append(t)
+        time.sleep(0.5)                 # ctx.tlc numbers its scratch directories without a lock
+    for t in ts:
+        t.join()
+    if err:
+        raise err[0]
+    return res
 
 
 def mc_cfg(maxlen):
@@ -65,25 +91,55 @@ def key_of(verdict, o, arg):
 
 
 def run(ctx):
-    # ---- 1. design level
+    # ---- 1. design level (runs while the cases are generated and executed; joined before reporting)
+    mc = []
+    mct = None
     if not ctx.replay:
-        m = ctx.tlc("PathWalkMC", cfg=mc_cfg(ctx.pick(2, 3)), workers=ctx.pick(2, 4), timeout=900)
-        ctx.tlc_ok("PathWalkMC", m)
-        ctx.log("PathWalkMC: %d distinct states in %.1fs" % (m.distinct, m.wall))
-        ctx.cov["mc_states"] = m.distinct
+        def mc_run():
+            mc.append(ctx.tlc("PathWalkMC", cfg=mc_cfg(ctx.pick(2, 3)), workers=ctx.pick(2, 3), timeout=1200,
+                              count=False))
+        mct = threading.Thread(target=mc_run)
+        mct.start()
+        time.sleep(0.5)
+    try:
+        obs, verdicts, fam = real_runs(ctx)
+    finally:
+        if mct:
+            mct.join()
+    if mct:
+        if not mc:
+            raise vlib.Inconclusive("PathWalkMC did not run")
+        ctx.tlc_ok("PathWalkMC", mc[0])
+        ctx.log("PathWalkMC: %d distinct states in %.1fs" % (mc[0].distinct, mc[0].wall))
+        ctx.cov["mc_states"] = mc[0].distinct
+        ctx.states += mc[0].distinct
+        ctx.transitions += mc[0].generated
+    return report(ctx, obs, verdicts, fam)
 
-    # ---- 2. cases
+
+def real_runs(ctx):
+
+    # ---- 2. cases: the sampled part + families K, A in one TLC run, the exhaustive block in slices
     n_sel = 1 if ctx.replay else ctx.pick(600, 3000)
     sel = [[ctx.rng.randrange(1 << 30), ctx.rng.randrange(999983), ctx.rng.randrange(999979)] for _ in range(n_sel)]
-    g = ctx.tlc("PathWalk_Gen", cfg=gen_cfg(ctx, not ctx.quick() and not ctx.replay, ctx.pick(KFLAGS_Q, KFLAGS_T)),
-                files={"sel.ndjson": sel}, timeout=900, count=False, heap="12g")
-    ctx.tlc_ok("PathWalk_Gen", g)
-    ctx.log("PathWalk_Gen %.1fs" % g.wall)
-    forests = os.path.join(g.dir, "forests.ndjson")
-    cases = os.path.join(g.dir, "cases.ndjson")
+    kfl = ctx.pick(KFLAGS_Q, KFLAGS_T)
+    parts = 0 if (ctx.quick() or ctx.replay) else 3
+    jobs = [lambda: ctx.tlc("PathWalk_Gen", cfg=gen_cfg(ctx, True, 0, 1, kfl), files={"sel.ndjson": sel},
+                            timeout=900, count=False)]
+    for k in range(1, parts + 1):
+        jobs.append(lambda k=k: ctx.tlc("PathWalk_Gen", cfg=gen_cfg(ctx, False, k, parts, kfl),
+                                        files={"sel.ndjson": sel}, timeout=900, count=False))
+    gens = parallel(jobs)
+    for g in gens:
+        ctx.tlc_ok("PathWalk_Gen", g)
+    forests = os.path.join(gens[0].dir, "forests.ndjson")
+    cases = ctx.path("cases.ndjson")
+    with open(cases, "w") as fh:
+        for g in gens[1:] + gens[:1]:
+            fh.write(open(os.path.join(g.dir, "cases.ndjson")).read())
+    ctx.log("PathWalk_Gen: %s s" % ", ".join("%.0f" % g.wall for g in gens))
     if ctx.replay:
         rc = ctx.replay["case"]["case"]
-        cases = ctx.path("replay_cases.ndjson")
         open(cases, "w").write(json.dumps(rc) + "\n")
 
     # ---- 3. real runs
@@ -101,15 +157,21 @@ def run(ctx):
         fam[o["case"]["fam"]] = fam.get(o["case"]["fam"], 0) + 1
     ctx.log("traced calls: %d %s" % (len(obs), fam))
 
-    # ---- 4. judge
-    return judge(ctx, obs, obsf, fam)
+    # ---- 4. judge (slices of the observation file in parallel single-worker TLC runs)
+    nj = 1 if len(obs) < 4000 else 4
+    lines = open(obsf).read().splitlines(True)
+    step = (len(lines) + nj - 1) // nj
+    js = parallel([lambda a=a: ctx.tlc("PathWalk_Judge", files={"obs.ndjson": "".join(lines[a:a + step])},
+                                       timeout=1800, count=False) for a in range(0, len(lines), step)])
+    verdicts = []
+    for j in js:
+        ctx.tlc_ok("PathWalk_Judge", j)
+        verdicts += ctx.read_ndjson(os.path.join(j.dir, "verdicts.ndjson"))
+    ctx.log("PathWalk_Judge: %s s" % ", ".join("%.0f" % j.wall for j in js))
+    return obs, verdicts, fam
 
 
-def judge(ctx, obs, obsf, fam):
-    j = ctx.tlc("PathWalk_Judge", files={"obs.ndjson": open(obsf).read()}, timeout=1800, heap="12g")
-    ctx.tlc_ok("PathWalk_Judge", j)
-    ctx.log("PathWalk_Judge %.1fs" % j.wall)
-    verdicts = ctx.read_ndjson(os.path.join(j.dir, "verdicts.ndjson"))
+def report(ctx, obs, verdicts, fam):
     if len(verdicts) != len(obs):
         raise vlib.Inconclusive("judge wrote %d verdicts for %d observation lines" % (len(verdicts), len(obs)))
     model_bad, drift = [], 0
@@ -150,7 +212,7 @@ def judge(ctx, obs, obsf, fam):
         "the kernel's answer is taken from open(O_PATH[|O_NOFOLLOW]) + readlink(/proc/self/fd/N) by the probe itself, and a real create+remove when the last component is missing",
         "calls the kernel would fail before touching an object (ENOENT/ENOTDIR in the middle, ELOOP, EBADF) and walks that leave the forest top are not judged on the path, only on the class and the number of consultations",
         "calls that do not follow a final symlink: the link's own canonical path or its target's is accepted; not judged on the path when the target cannot be resolved",
-        "/proc/<pid>/fd|cwd|root magic links and AT_EMPTY_PATH are outside the forest model",
+        "procfs aliases are judged where the kernel resolves them into the forest (/proc/self/cwd|root|fd/N/..., /proc/thread-self/cwd/... of a single-threaded program); names that stay under /proc (checkProcPath's dangerous/allowed classification) and AT_EMPTY_PATH are outside the forest model",
         "the handler answers 'ban' for the scripted call so the forest is never modified; the presented path is computed before the answer",
     ]
     if model_bad:
